@@ -53,11 +53,11 @@ def chunk(scs, budget):
     return groups
 
 
-def record_and_validate(ctx, idx, scs):
+def record_and_validate(ctx, idx, scs, env=None):
     trace = ctx.path("epochs-%d.ndjson" % idx)
     rep_file = ctx.path("epochs-%d.report.json" % idx)
     _, rep, _ = ctx.vh(["record-epochs", "-out", trace, "-report", rep_file, "-scenarios", json.dumps(scs)],
-                       pkg="vh_genome", expect_report=rep_file, timeout=3000)
+                       pkg="vh_genome", expect_report=rep_file, timeout=3000, env=env)
     r = ctx.tlc("Trace_Epoch", env={"TRACE": trace}, workers=1, timeout=3000, xss=True)
     if not r.ok:
         raise Infra("epoch trace validation did not complete: %s\n%s" % (r.violated, r.output[-2000:]))
